@@ -13,6 +13,9 @@ every device.  Four sub-checks, all driving `vp/harness/c09_bed.py`:
   cut    every sequence of a smaller depth x link disconnection requested at every message
          boundary of its fault-free run x by either end (x either link)
   sched  selected scripts x every order-preserving delivery delay with <= d deviations
+  cancel the caller gives up on a pending open (task.cancel()) at every message boundary of the
+         fault-free open, for every kind and either initiator, alone / followed by every kind of
+         open / preceded by an open; plus churn: (cancel, open, close) x 90 (classic x 50)
   churn  one channel opened and closed 70-140 times in a row (more often than there are dynamic LE
          CIDs and signalling identifiers): closed identifiers stay reusable
 
@@ -45,7 +48,7 @@ def predict(ops):
         if op[0] == 'par':
             for o in op[1:]:
                 walk(o)
-        elif op[0] == 'open':
+        elif op[0] in ('open', 'cancel'):
             n = op[4] if op[1] == 'ec' else 1
             for _ in range(n):
                 out.append((len(out), op[1], op[2], op[3]))
@@ -70,7 +73,7 @@ def project(ops, L):
             if not subs:
                 return None
             return subs[0] if len(subs) == 1 else ['par'] + subs
-        if op[0] in ('open', 'refused'):
+        if op[0] in ('open', 'refused', 'cancel'):
             return list(op) if op[2] == L else None
         if link_of.get(op[1]) != L:
             return None
@@ -296,6 +299,8 @@ def apply_ideal(open_recs, next_rid, op):
             for _ in range(n):
                 recs.append((next_rid, o[1], o[2], o[3]))
                 next_rid += 1
+        elif o[0] == 'cancel':  # consumes rec ids; whether a channel results depends on the timing
+            next_rid += o[4] if o[1] == 'ec' else 1
         elif o[0] in ('close', 'abort'):
             recs[:] = [r for r in recs if r[0] != o[1]]
 
@@ -342,6 +347,50 @@ def churn_scripts(quick):
     return out
 
 
+KINDS = (('le', 0), ('ec', 1), ('ec', 2), ('cl', 0))
+
+
+def open_message_counts():
+    """Messages of the fault-free open of each kind (the cancel points)."""
+    out = {}
+    for kind, var in KINDS:
+        out[(kind, var)] = run_case({'links': 1, 'ops': [['open', kind, 1, 'c', var]]})['messages']
+    return out
+
+
+def cancel_scripts(quick, counts):
+    out = []
+    follow = [(k, v, s) for (k, v) in (('le', 0), ('ec', 1), ('cl', 0)) for s in ('c', 'p')]
+    for (kind, var), n in counts.items():
+        for side in ('c', 'p'):
+            for at in range(n):
+                c = ['cancel', kind, 1, side, var, at]
+                out.append([c])
+                for k2, v2, s2 in follow:
+                    out.append([c, ['open', k2, 1, s2, v2]])
+                if not quick:
+                    for k0, v0, s0 in follow:
+                        out.append([['open', k0, 1, s0, v0], c, ['open', kind, 1, side, var]])
+                    out.append([c, ['cancel', kind, 1, side, var, at], ['open', kind, 1, side, var]])
+    # churn: a leaked identifier per cancelled attempt exhausts the 64 dynamic LE CIDs / wraps the identifiers
+    for (kind, var), n in counts.items():
+        per = var if kind == 'ec' else 1
+        for side in ('c',) if quick else ('c', 'p'):
+            for at in sorted({0, n // 2}) if quick else range(n):
+                ops, rid = [], 0
+                # classic: the peer has no way to drop the half-configured channel an abandoned attempt leaves
+                # with it (no RTX timer in bumble), and those share the CID space with its LE channels -> stay < 64
+                for _ in range(50 if kind == 'cl' else 90):
+                    ops.append(['cancel', kind, 1, side, var, at])
+                    rid += per
+                    ops.append(['open', kind, 1, side, var])
+                    for _k in range(per):
+                        ops.append(['close', rid, 'client'])
+                        rid += 1
+                out.append(ops)
+    return out
+
+
 def uses_both_links(ops):
     return len({r[2] for r in predict(ops)} | {o[2] for o in ops if o[0] == 'refused'}) > 1
 
@@ -376,7 +425,7 @@ def shape(ops):
     def s(o):
         if o[0] == 'par':
             return 'par(' + ','.join(s(x) for x in o[1:]) + ')'
-        if o[0] in ('open', 'refused'):
+        if o[0] in ('open', 'refused', 'cancel'):
             return f'{o[0]}:{o[1]}'
         return o[0]
 
@@ -453,6 +502,7 @@ def run(ctx: core.Context) -> int:
         plan['cut1'] = [(alpha_cut(1), 2, 1, False), (alpha_cut_micro(), 3, 3, False)]
         plan['cut2'] = [(alpha_cut(2), 2, 1, True)]
         sched_bound, sched_scripts = 1, SCHED_SCRIPTS
+    plan['cancel'] = None
     plan['churn'] = None
     sizes = {}
     for name, parts in plan.items():
@@ -462,6 +512,11 @@ def run(ctx: core.Context) -> int:
         if name == 'churn':
             links = 1
             scripts = churn_scripts(quick)
+        elif name == 'cancel':
+            links = 1
+            counts = open_message_counts()
+            ctx.log(f'cancel points per kind: {counts}')
+            scripts = cancel_scripts(quick, counts)
         else:
             links = parts[0][0]['links']
             seen = set()
